@@ -25,8 +25,8 @@ import (
 
 func init() {
 	gens["C19"] = genC19
-	observers["C19.trace"] = obsC19Trace
-	observers["C19.race"] = obsC19Race
+	observers["C19.trace"] = retryHang(obsC19Trace, "exit=HANG")
+	observers["C19.race"] = retryHang(obsC19Race, "exit=HANG")
 }
 
 type c19File struct {
